@@ -723,6 +723,13 @@ def check_abandoned(session, d, ctx, rng):
     over_existing = declared and rng.random() < 0.6
     stop_by_refusal = rng.random() < 0.5
     refused = False
+    if not declared and rng.random() < 0.4:
+        # names that look like numbers in the first records (residue "2", atom "14"): with no count declared the file
+        # on disk has no count at all, so nothing in it can be taken for a complete system whatever the records look like
+        recs = [list(r) for r in recs]
+        for r_ in recs[:2]:
+            r_[1], r_[2] = str(rng.randint(1, 99)), str(rng.randint(1, 999))
+        ctx.probe("number_like_names_in_an_abandoned_file")
     try:
         if over_existing:
             # the path already holds the COMPLETE file of an earlier, identical session (a new frame written over the old one)
